@@ -3,7 +3,7 @@
 //!   nb / nd: number of messages the boss end / the doer end sends (message i carries index i)
 //!   first item list: what the network delivers to the doer end, second: to the boss end.
 //!   item: `f<b|d><i>` original frame i of that sender, optional `~<bit>` (flip) or `/<n>` (truncate
-//!   body to n bytes), or `g<len>:<seed>` (a frame made without the key).
+//!   body to n bytes) or `^<bit>` (flip a bit of the 8-byte length header), or `g<len>:<seed>` (a frame made without the key).
 //! Answer: `toDoer=[i,..] toBoss=[i,..] reuse=<0|1>`: indices delivered to each application, and whether
 //! two frames of the session provably used one key stream (c_i ^ c_j == p_i ^ p_j).
 use std::io::{Read, Write};
@@ -42,6 +42,7 @@ fn read_frames(s: &mut TcpStream, n: usize) -> Vec<Vec<u8>> {
 fn build(items: &[String], fb: &[Vec<u8>], fd: &[Vec<u8>]) -> Option<Vec<u8>> {
     let mut wire = vec![];
     for it in items {
+        let mut header_flip: Option<usize> = None;
         let body: Vec<u8> = if let Some(rest) = it.strip_prefix('g') {
             let (len, seed) = rest.split_once(':')?;
             let len: usize = len.parse().ok()?; let mut x: u64 = seed.parse().ok()?;
@@ -50,15 +51,19 @@ fn build(items: &[String], fb: &[Vec<u8>], fd: &[Vec<u8>]) -> Option<Vec<u8>> {
             let rest = it.strip_prefix('f')?;
             let src = if rest.starts_with('b') { fb } else if rest.starts_with('d') { fd } else { return None };
             let rest = &rest[1..];
-            let (i, modif) = match rest.find(|c| c == '~' || c == '/') { Some(p) => (&rest[..p], Some(&rest[p..])), None => (rest, None) };
+            let (i, modif) = match rest.find(|c| c == '~' || c == '/' || c == '^') { Some(p) => (&rest[..p], Some(&rest[p..])), None => (rest, None) };
             let mut b = src.get(i.parse::<usize>().ok()?)?.clone();
             if let Some(m) = modif {
                 let n: usize = m[1..].parse().ok()?;
-                if m.starts_with('~') { let l = b.len(); b[(n / 8) % l] ^= 1 << (n % 8); } else { b.truncate(n); }
+                if m.starts_with('~') { let l = b.len(); b[(n / 8) % l] ^= 1 << (n % 8); }
+                else if m.starts_with('^') { header_flip = Some(n % 64); }     // a bit of the 8-byte length header
+                else { b.truncate(n); }
             }
             b
         };
-        wire.extend_from_slice(&body.len().to_le_bytes());
+        let mut header = body.len().to_le_bytes();
+        if let Some(bit) = header_flip { header[bit / 8] ^= 1 << (bit % 8); }
+        wire.extend_from_slice(&header);
         wire.extend_from_slice(&body);
     }
     Some(wire)
